@@ -449,6 +449,16 @@ def c07e(F, R):
 
 
 # ============================================================================ C15
+def _pff(F):
+    """parse_from_file with the private helpers of RVParser it calls inlined: {"path", "sp", "hir": {"value": body}}, [helpers]"""
+    f = fn_by_suffix(F, "RVParser::<T>::parse_from_file")
+    body, inl = inline_self_helpers(F, f, f["path"].rsplit("::", 1)[0] + "::")
+    g = dict(f)
+    g["hir"] = dict(f["hir"])
+    g["hir"]["value"] = body
+    return g, inl
+
+
 def _include_site(f):
     """where parse_from_file learns that a node is an include directive: -> (binding of the path, region that handles the include,
     'if-let' | 'let-else', the site node) or None.  Accepted: `if let Some(p) = <..get_include_path()..> { .. }` and
@@ -469,6 +479,14 @@ def _include_site(f):
             binds = [b["name"] for b in walk(peel_cond(n["cond"])["pat"]) if b.get("k") == "PBinding"]
             if len(binds) == 1:
                 return binds[0], n["then"], "if-let", n
+    # `match <include path> { Some(p) => <handle the include>, None => <keep the node> }`
+    for n in walk(body, pats=False):
+        if n.get("k") == "Match" and n.get("src") in (None, "Normal") and derives(n["scrut"]):
+            for a in n["arms"]:
+                if any(short(v or "") == "Some" for k_, v in pat_variants(a["pat"]) if k_ == "path"):
+                    binds = [b["name"] for b in walk(a["pat"]) if b.get("k") == "PBinding"]
+                    if len(binds) == 1:
+                        return binds[0], a["body"], "match", n
     pm = parent_map(body)
     for st in walk(body, pats=False):
         if st.get("k") == "Let" and st.get("els") is not None and st.get("init") is not None and derives(st["init"]) and any(short(v or "") == "Some" for k_, v in pat_variants(st["pat"]) if k_ == "path"):
@@ -485,13 +503,13 @@ def _include_site(f):
 @rule("C15", "C15.a.lexer-stack-pairing", floor=2)
 def c15a(F, R):
     """the include stack is pushed only for the base file and a successfully imported include, popped only at end of file, and an include directive is never also kept as a node"""
-    f = fn_by_suffix(F, "RVParser::<T>::parse_from_file")
+    f, inlined_helpers = _pff(F)
     pm = parent_map(f["hir"]["value"])
     pushes = [n for n in walk(f["hir"]["value"], pats=False) if n.get("k") == "MethodCall" and n["name"] == "push" and ekey(n["recv"]) == "self.lexer_stack"]
     pops = [n for n in walk(f["hir"]["value"], pats=False) if n.get("k") == "MethodCall" and n["name"] in ("pop", "clear", "truncate", "remove") and ekey(n["recv"]) == "self.lexer_stack"]
     others = []
     for q, g in F.fns.items():
-        if "hir" in g and q != f["path"] and not q.startswith(f["path"] + "::"):
+        if "hir" in g and q != f["path"] and not q.startswith(f["path"] + "::") and q not in inlined_helpers:
             for n in walk(g["hir"]["value"], pats=False):
                 if n.get("k") == "MethodCall" and n["name"] in ("push", "pop", "clear", "truncate", "remove", "insert") and ekey(n["recv"]).endswith(".lexer_stack"):
                     others.append((q, n))
@@ -541,6 +559,9 @@ def c15a(F, R):
             e = e["e"]
         if e.get("k") == "Continue":
             okc = True
+    elif site_ is not None and site_[2] == "match":
+        # `match include_path { Some(p) => <include>, None => nodes.push(x) }`: the include arm does not keep the directive
+        okc = not any(m.get("k") == "MethodCall" and m["name"] == "push" and "nodes" == ekey(m["recv"]).lstrip("&*") for m in walk(site_[1], pats=False))
     elif site_ is not None:
         # `let Some(path) = .. else { nodes.push(x); continue }`: what follows handles the include and must not push the directive
         region = site_[1]
@@ -580,7 +601,7 @@ def c15b(F, R):
     for v in F.variants(FRERR):
         if v not in seen:
             R.bad(f"map|{v}|missing", "no arm", loc(m))
-    f = fn_by_suffix(F, "RVParser::<T>::parse_from_file")
+    f, _ = _pff(F)
     okk = False
     for mt in find_matches(f["hir"]["value"]):
         if mentions_call(mt["scrut"], "import_file") and any(a.get("k") == "Call" and short(callee_of(a) or "") == "Some" for a in walk(mt["scrut"], pats=False)):
@@ -856,7 +877,7 @@ def c15c(F, R):
 @rule("C15", "C15.d.include-relative-to-its-own-file", floor=2)
 def c15d(F, R):
     """an include is imported with the directive's own path text and the id of the file the directive's token lives in, and the lexer pushed for it carries the id/text that same import returned"""
-    f = fn_by_suffix(F, "RVParser::<T>::parse_from_file")
+    f, _ = _pff(F)
     site_ = _include_site(f)
     if site_ is None:
         raise Anchor("no `Some(path)` binding of `get_include_path()` (if-let or let-else) found in parse_from_file")
